@@ -59,6 +59,21 @@ extern "C" void harness() {
     { Persistence_landscape S = L + L2; vp_assert(close(compute_inner_product(S, L), compute_inner_product(L, L) + ip), "inner product is additive"); vp_assert(close(compute_inner_product(L * 2.0, L2), 2.0 * ip), "inner product is homogeneous"); } }
   { Persistence_landscape Avg; std::vector<Persistence_landscape*> v2; v2.push_back(&L); v2.push_back(&L2); Avg.compute_average(v2); for (int k = 0; k < M; k++) for (int q = 0; q <= 28; q++) { double t = q * 0.25; vp_assert(Avg.compute_value_at_a_given_point(k, t) == (lam(A, k, t) + lam(B, k, t)) * 0.5, "average is pointwise"); } }
   vp_reach("algebra");
+#if VP_MODE == 2
+  // ---- the gridded class: vector space operations at and between grid points, sup distance / sup norm also of differences and negative multiples
+  { const double big = std::numeric_limits<double>::max(); std::vector<std::pair<double, double> > none;
+    Persistence_landscape_on_grid G1(va, 0.0, 7.0, 14), G2(vb, 0.0, 7.0, 14), Z(none, 0.0, 7.0, 14); Persistence_landscape_on_grid S = G1 + G2, Dif = G1 - G2, Neg = G1 * (-2.0);
+    double dsup = 0, n1 = 0;
+    for (int k = 0; k < M; k++) for (int q = 0; q <= 28; q++) { double t = q * 0.25; double x = lam(A, k, t), y = lam(B, k, t);
+      vp_assert(S.compute_value_at_a_given_point(k, t) == x + y, "gridded: sum is pointwise"); vp_assert(Dif.compute_value_at_a_given_point(k, t) == x - y, "gridded: difference is pointwise");
+      vp_assert(Neg.compute_value_at_a_given_point(k, t) == -2.0 * x, "gridded: scalar multiple is pointwise");
+      if (std::fabs(x - y) > dsup) dsup = std::fabs(x - y); if (x > n1) n1 = x; }
+    vp_assert(compute_max_norm_distance_of_landscapes(G1, G2) == dsup && compute_max_norm_distance_of_landscapes(G2, G1) == dsup, "gridded: sup distance (symmetric)");
+    vp_assert(compute_max_norm_distance_of_landscapes(Dif, Z) == dsup && compute_max_norm_distance_of_landscapes(Z, Dif) == dsup, "gridded: sup distance of a difference to zero = sup distance of the two landscapes");
+    vp_assert(Dif.compute_norm_of_landscape(big) == dsup, "gridded: sup norm of a difference"); vp_assert((G2 - G1).compute_norm_of_landscape(big) == dsup, "gridded: sup norm of the opposite difference");
+    vp_assert(Neg.compute_norm_of_landscape(big) == 2.0 * n1, "gridded: sup norm is absolutely homogeneous"); vp_assert(compute_max_norm_distance_of_landscapes(G1, G1) == 0, "gridded: distance to itself");
+    vp_reach("gridded-algebra"); }
+#endif
 #endif
   vp_reach("end");
 }
